@@ -43,23 +43,31 @@ func (sm *stateMachine) Connect(session *session) {
 		return
 	}
 
+	// If the Logon cannot be sent the connection is given up: it is attached to the session already,
+	// and left attached it is never closed, and its end is never noticed (the run loop then spins on
+	// the closed inbound channel).
+	abort := func(err error) {
+		session.logError(err)
+		session.onDisconnect()
+	}
+
 	if session.RefreshOnLogon {
 		if err := session.store.Refresh(); err != nil {
-			session.logError(err)
+			abort(err)
 			return
 		}
 	}
 
 	if session.ResetOnLogon {
 		if err := session.dropAndReset(); err != nil {
-			session.logError(err)
+			abort(err)
 			return
 		}
 	}
 
 	session.log.OnEvent("Sending logon request")
 	if err := session.sendLogon(); err != nil {
-		session.logError(err)
+		abort(err)
 		return
 	}
 
